@@ -19,7 +19,8 @@ func ConjPlus(gs ...micro.Goal) micro.Goal {
 		return gs[0]
 	}
 	return func(s *micro.State) *micro.StreamOfStates {
-		ch := make(chan answer)
+		// buffered, so that no sender blocks after the receiver has returned early
+		ch := make(chan answer, len(gs))
 		go func() {
 			for i, g := range gs {
 				go func(index int, goal micro.Goal) {
@@ -28,7 +29,7 @@ func ConjPlus(gs ...micro.Goal) micro.Goal {
 				}(i, g)
 			}
 		}()
-		ch2 := make(chan *micro.StreamOfStates)
+		ch2 := make(chan *micro.StreamOfStates, 1)
 		go func() {
 			g1s := gs[0](s)
 			g2 := mini.ConjPlusNoZzz(gs[1:]...)
@@ -57,7 +58,8 @@ func ConjPlusZzz(gs ...micro.Goal) micro.Goal {
 		return micro.Zzz(gs[0])
 	}
 	return func(s *micro.State) *micro.StreamOfStates {
-		ch := make(chan answer)
+		// buffered, so that no sender blocks after the receiver has returned early
+		ch := make(chan answer, len(gs))
 		go func() {
 			for i, g := range gs {
 				go func(index int, goal micro.Goal) {
@@ -66,7 +68,7 @@ func ConjPlusZzz(gs ...micro.Goal) micro.Goal {
 				}(i, g)
 			}
 		}()
-		ch2 := make(chan *micro.StreamOfStates)
+		ch2 := make(chan *micro.StreamOfStates, 1)
 		go func() {
 			g1s := micro.Zzz(gs[0])(s)
 			g2 := mini.ConjPlus(gs[1:]...)
